@@ -490,6 +490,13 @@ func genWaitShape(g *gen, repo string) {
 	for _, k := range []string{"loopExitsOnDone", "loopExitsOnConnDone", "loopClearsFlagProcessesSetsFlagUnderMutex", "tryReplaceChecksCurrentFlagThenClosesAndSpawns"} {
 		fmt.Fprintf(&b, "/-- net/client/receivedMessageReader.go (structure recognised in the AST) -/\ndef %s : Bool := %v\n", k, facts[k])
 	}
+	// (added with the repair of F42, C06) udp/client/conn.go: Conn.handle acknowledges a confirmable request by the token of its
+	// response before it dispatches the response - also a notification of an observation that is being registered; the recogniser
+	// is C06's (gen_dedup_retransmit.go drHandleAcknowledgesByToken: false = the shape before the repair, other shapes fail closed)
+	{
+		_, cf := parseFile(repo, "udp/client/conn.go")
+		fmt.Fprintf(&b, "/-- udp/client/conn.go: Conn.handle acknowledges a confirmable request by the token of its response (acknowledgeByResponse) before the dispatch by token: a notification that arrives before the acknowledgement ends the registration request's wait for it, as a separate response does for doInternal (AST) -/\ndef handleAcknowledgesByToken : Bool := %v\n", drHandleAcknowledgesByToken(cf))
+	}
 	hos := scanHandovers(repo, files)
 	b.WriteString("\n/-- a hand-over of the reader loop made on behalf of a blocking construct that lives in another function: on connections\n    built in `file`, `func` calls `TryToReplaceLoop` (itself, or through the hook the connection installs in the limiter) before it\n    enters `callee`, as an unconditional statement of its body -/\n")
 	b.WriteString("structure Handover where\n  file : String\n  func : String\n  callee : String\n  deriving Repr, DecidableEq\n\n")
